@@ -40,9 +40,12 @@ def sh(cmd, cwd, timeout, extra_env=None):
 
 
 def done_ids():
-    if not os.path.exists(rfile):
-        return set()
-    return {json.loads(l)["id"] for l in open(rfile) if l.strip()}
+    # MUTSWEEP_ALSO: other shards' result files to consult (colon-separated)
+    ids = set()
+    for f in [rfile] + [x for x in os.environ.get("MUTSWEEP_ALSO", "").split(":") if x]:
+        if os.path.exists(f):
+            ids |= {json.loads(l)["id"] for l in open(f) if l.strip()}
+    return ids
 
 
 def record(r):
@@ -53,9 +56,10 @@ def record(r):
 
 def main():
     ms = [json.loads(l) for l in open(mfile)]
-    done = done_ids()
+    if os.environ.get("MUTSWEEP_REVERSE"):
+        ms.reverse()
     for idx, m in enumerate(ms):
-        if idx % nshards != shard or m["id"] in done:
+        if idx % nshards != shard or m["id"] in done_ids():
             continue
         path = os.path.join(repo, m["file"])
         subprocess.run(["git", "-C", repo, "checkout", "-q", "--", "."], check=True)
